@@ -33,7 +33,7 @@ def classify(spec, problems):
 
 
 def run_one(st, spec, rnd):
-    cs = C.make_case(spec, rnd, lo=2, hi=6)
+    cs = C.make_case(spec, rnd, lo=2, hi=6, extents=getattr(spec, "_extents", None))
     with hooks.capture_translate() as tl:
         compiled = run.compile_yaml(spec.yaml(), "plain")
     out = C.evaluate(cs, compiled=compiled)
@@ -76,7 +76,8 @@ def shard(tier, seed, shard, nshards):
     n = N[tier] // nshards
     for i in range(n):
         rnd = random.Random("%s-%d-%d-%d" % (ID, seed, shard, i))
-        spec = G.gen_reread(rnd) if i % 6 == 5 else (G.gen_rewrite(rnd) if i % 12 == 4 else None)
+        spec = G.gen_reread(rnd) if i % 6 == 5 else (G.gen_rewrite(rnd) if i % 12 == 4 else (
+            G.gen_affine_cascade(rnd) if i % 12 == 10 else None))
         if spec is None:
             spec = G.gen_cascade(rnd)
         run_one(st, spec, rnd)
